@@ -1,9 +1,14 @@
 import ApdVerif.Spec.Agrees
+import ApdVerif.Lemmas.C20Lemmas
 /-!
 # C20 — rounding modes bracket each other; mirror; commutativity; Sub = Add of the negation
 
 Statements about the specification's rounding (`specRound`), to which C01 ties every exactly
 rounded operation, plus algebraic laws of the model itself.
+
+Two of the given statements are false as stated (`C20_mul_comm`, `C20_sub_eq_add_neg`); they are kept
+in comments together with machine-checked counterexamples, and the strongest true variants are proved
+as `C20_mul_comm_partial` (+ `C20_mul_comm_d_err`) and `C20_sub_eq_add_neg_partial`.
 -/
 namespace Apd.Props
 open Apd Apd.Oracle
@@ -14,27 +19,82 @@ def S (c : Ctx) (ex : Exact) (m : Mode) : SpecOut := specRound { c with mode := 
 /-- magnitude order on results of the same context/exact value (they share the quantum `q`) -/
 def magLe (a b : SpecOut) : Prop := b.inf = true ∨ (a.inf = false ∧ a.m ≤ b.m)
 
+theorem S_eq (c : Ctx) (ex : Exact) (m : Mode) :
+    S c ex m = if ex.num == 0 then { neg := ex.neg, m := 0, q := ex.e10 }
+      else specCore c ex (roundAt m ex.neg ex.num ex.den ex.e10 (specQ c ex)) := rfl
+
 /-- every mode returns the RoundDown result or the RoundUp result -/
 theorem C20_down_or_up (c : Ctx) (ex : Exact) (m : Mode) :
     S c ex m = S c ex .down ∨ S c ex m = S c ex .up := by
-  sorry
+  simp only [S_eq]
+  split
+  · left; rfl
+  · rcases roundAt_down_or_up m ex.neg ex.num ex.den ex.e10 (specQ c ex) with h | h
+    · left; rw [h]
+    · right; rw [h]
+
+theorem magLe_refl (a : SpecOut) : magLe a a := by
+  unfold magLe; cases h : a.inf <;> simp
+
+theorem magLe_down_up (c : Ctx) (ex : Exact) : magLe (S c ex .down) (S c ex .up) := by
+  simp only [S_eq]
+  split
+  · exact magLe_refl _
+  · by_cases h : rN ex.num ex.e10 (specQ c ex) % rD ex.den ex.e10 (specQ c ex) = 0
+    · rw [roundAt_exact _ _ _ _ _ _ h, roundAt_exact _ _ _ _ _ _ h]; exact magLe_refl _
+    · rw [roundAt_down _ _ _ _ _ h, roundAt_up _ _ _ _ _ h]
+      generalize rN ex.num ex.e10 (specQ c ex) / rD ex.den ex.e10 (specQ c ex) = n
+      unfold magLe specCore
+      by_cases hn : n = 0
+      · subst hn; simp
+      · have hmono : ndigits n ≤ ndigits (n + 1) := ndigits_mono (by omega) (by omega)
+        by_cases h2 : specQ c ex + (ndigits (n + 1) : Int) - 1 > c.emax
+        · simp [h2]
+        · have h1 : ¬ specQ c ex + (ndigits n : Int) - 1 > c.emax := by omega
+          simp [h1, h2]
 
 /-- |RoundDown| ≤ |every mode| ≤ |RoundUp| -/
 theorem C20_mag_bracket (c : Ctx) (ex : Exact) (m : Mode) :
     magLe (S c ex .down) (S c ex m) ∧ magLe (S c ex m) (S c ex .up) := by
-  sorry
+  rcases C20_down_or_up c ex m with h | h <;> rw [h]
+  · exact ⟨magLe_refl _, magLe_down_up c ex⟩
+  · exact ⟨magLe_down_up c ex, magLe_refl _⟩
+
+theorem roundAt_floor_ceiling (neg : Bool) (num den : Nat) (e10 q : Int) :
+    roundAt .floor neg num den e10 q = roundAt (if neg then .up else .down) neg num den e10 q ∧
+    roundAt .ceiling neg num den e10 q = roundAt (if neg then .down else .up) neg num den e10 q := by
+  simp only [roundAt_eq]
+  cases neg <;> simp [specAddOne]
 
 /-- RoundFloor/RoundCeiling are RoundDown/RoundUp according to the sign: hence
 RoundFloor ≤ every mode ≤ RoundCeiling in the signed order -/
 theorem C20_floor_ceiling (c : Ctx) (ex : Exact) :
     (ex.neg = false → S c ex .floor = S c ex .down ∧ S c ex .ceiling = S c ex .up) ∧
     (ex.neg = true → S c ex .floor = S c ex .up ∧ S c ex .ceiling = S c ex .down) := by
-  sorry
+  have h := roundAt_floor_ceiling ex.neg ex.num ex.den ex.e10 (specQ c ex)
+  simp only [S_eq]
+  constructor <;> intro hn <;> rw [hn] at h <;> simp only [if_true, if_false, Bool.false_eq_true] at h <;>
+    rw [hn, h.1, h.2] <;> exact ⟨rfl, rfl⟩
+
+theorem specCore_inexact_false (c : Ctx) (ex : Exact) (r : Nat × Bool)
+    (h : (specCore c ex r).inexact = false) : r.2 = false := by
+  unfold specCore at h
+  split at h
+  · simp at h
+  · simpa using h
 
 /-- Inexact does not depend on the mode, and all modes coincide when it is not raised -/
 theorem C20_exact_coincide (c : Ctx) (ex : Exact) (m m' : Mode)
     (h : (S c ex m).inexact = false) : S c ex m' = S c ex m := by
-  sorry
+  simp only [S_eq] at h ⊢
+  split
+  · rfl
+  · rename_i hz
+    simp only [hz, if_false, Bool.false_eq_true] at h
+    have h2 := specCore_inexact_false _ _ _ h
+    rw [roundAt_inexact] at h2
+    simp only [Bool.not_eq_false', beq_iff_eq] at h2
+    rw [roundAt_exact _ _ _ _ _ _ h2, roundAt_exact _ _ _ _ _ _ h2]
 
 /-- when Inexact is raised, RoundDown and RoundUp are adjacent representable values:
 one unit of the common quantum apart, or RoundUp overflows and RoundDown is the largest finite number -/
@@ -43,31 +103,194 @@ theorem C20_adjacent (c : Ctx) (hc : c.WF) (ex : Exact) (hn : ex.num ≠ 0) (hd 
     ((S c ex .up).inf = false ∧ (S c ex .up).q = (S c ex .down).q ∧ (S c ex .up).m = (S c ex .down).m + 1) ∨
     ((S c ex .up).inf = true ∧ (S c ex .down).m + 1 = 10 ^ c.prec ∧
        (S c ex .down).q = c.emax - (c.prec : Int) + 1) := by
-  sorry
+  obtain ⟨hp1, hpe, hemax, hemin, hemin0⟩ := hc
+  have hz : (ex.num == 0) = false := by simpa using hn
+  simp only [S_eq, hz, Bool.false_eq_true, if_false] at h hdn ⊢
+  have hdn' : ¬ (specCore c ex (roundAt .down ex.neg ex.num ex.den ex.e10 (specQ c ex))).inf = true := by
+    simp [hdn]
+  rw [specCore_inf] at hdn'
+  obtain ⟨-, dm, dq, di⟩ := specCore_fin _ _ _ hdn'
+  rw [di, roundAt_inexact] at h
+  have hr : rN ex.num ex.e10 (specQ c ex) % rD ex.den ex.e10 (specQ c ex) ≠ 0 := by simpa using h
+  rw [dm, dq]
+  rw [roundAt_down _ _ _ _ _ hr] at hdn' ⊢
+  rw [roundAt_up _ _ _ _ _ hr]
+  simp only [] at hdn' ⊢
+  -- facts about the truncated quotient
+  have hlt : rN ex.num ex.e10 (specQ c ex) / rD ex.den ex.e10 (specQ c ex) < 10 ^ c.prec :=
+    floor_lt _ _ _ _ _ hn hd (by unfold specQ; omega)
+  have hge : specQ c ex = adjRat ex.num ex.den + ex.e10 - (c.prec : Int) + 1 →
+      10 ^ (c.prec - 1) ≤ rN ex.num ex.e10 (specQ c ex) / rD ex.den ex.e10 (specQ c ex) := by
+    intro hq
+    exact floor_ge _ _ _ _ _ hn hd (by omega)
+  have hQ : specQ c ex = adjRat ex.num ex.den + ex.e10 - (c.prec : Int) + 1 ∨
+      specQ c ex = c.emin - (c.prec : Int) + 1 := by unfold specQ; omega
+  generalize rN ex.num ex.e10 (specQ c ex) / rD ex.den ex.e10 (specQ c ex) = n at *
+  have h10 : 1 ≤ 10 ^ (c.prec - 1) := Nat.pow_pos (by decide)
+  by_cases hup : (n + 1 ≠ 0 ∧ specQ c ex + (ndigits (n + 1) : Int) - 1 > c.emax)
+  · right
+    refine ⟨(specCore_inf _ _ _).2 hup, ?_⟩
+    obtain ⟨-, hup⟩ := hup
+    by_cases hn0 : n = 0
+    · exfalso
+      subst hn0
+      have : ndigits (0 + 1) = 1 := by decide
+      rw [this] at hup
+      rcases hQ with hQ | hQ
+      · have := hge hQ; omega
+      · omega
+    · have hnd : ¬ specQ c ex + (ndigits n : Int) - 1 > c.emax := fun hh => hdn' ⟨hn0, hh⟩
+      have hcar := carry n (by omega) (by omega)
+      have hnd1 : ndigits (n + 1) = ndigits n + 1 := by rw [hcar, ndigits_pow]
+      have hle : ndigits n ≤ c.prec := (ndigits_le_iff n c.prec (by omega) hp1).2 hlt
+      have hndp : ndigits n = c.prec := by
+        by_contra hne
+        have hlt2 : ndigits n ≤ c.prec - 1 := by omega
+        have hp2 : 1 ≤ c.prec - 1 := by have := ndigits_pos n; omega
+        have := (ndigits_le_iff n (c.prec - 1) (by omega) hp2).1 hlt2
+        rcases hQ with hQ | hQ
+        · have := hge hQ; omega
+        · omega
+      rw [hcar, hndp]
+      exact ⟨rfl, by omega⟩
+  · left
+    obtain ⟨a, b, c', -⟩ := specCore_fin c ex (n + 1, true) hup
+    exact ⟨a, c', b⟩
 
 /-- mirrored mode -/
 def mirror : Mode → Mode
   | .floor => .ceiling | .ceiling => .floor | m => m
 
+theorem roundAt_mirror (m : Mode) (neg : Bool) (num den : Nat) (e10 q : Int) :
+    roundAt (mirror m) (!neg) num den e10 q = roundAt m neg num den e10 q := by
+  simp only [roundAt_eq]
+  rw [specAddOne_mirror m _ neg _ (mirror m) (by cases m <;> rfl)]
+
 /-- negating the exact value mirrors the result under the mirrored mode -/
 theorem C20_mirror (c : Ctx) (ex : Exact) (m : Mode) :
     S c { ex with neg := !ex.neg } (mirror m) = { S c ex m with neg := !(S c ex m).neg } := by
-  sorry
+  simp only [S_eq]
+  split
+  · rfl
+  · rw [roundAt_mirror]
+    show specCore c { ex with neg := !ex.neg } _ = _
+    unfold specCore specQ
+    simp only []
+    split <;> rfl
 
 /-- Add commutes on finite operands (identical outcome, representation included) -/
 theorem C20_add_comm (c : Ctx) (x y : Dec) (hx : x.form = .finite) (hy : y.form = .finite) :
     addOp c x y false = addOp c y x false := by
-  sorry
+  unfold addOp
+  simp only [shouldSetAsNaN, isNaN_of_finite x hx, isNaN_of_finite y hy, hx, hy, Bool.or_self,
+    Bool.false_eq_true, if_false, Bool.bne_false]
+  rw [upscale_swap x y]
+  cases h : upscale x y with
+  | none => rfl
+  | some t =>
+    obtain ⟨a, b, s⟩ := t
+    simp only [Option.map_some]
+    apply congrArg (fun d => finish c (ctxRound c d))
+    rcases Nat.lt_trichotomy a b with hab | hab | hab
+    · have h1 : ¬ b < a := by omega
+      have h2 : ¬ b = a := by omega
+      cases hxn : x.neg <;> cases hyn : y.neg <;> simp [hab, h1, h2, Nat.add_comm]
+    · subst hab
+      cases hxn : x.neg <;> cases hyn : y.neg <;> simp
+    · have h1 : ¬ a < b := by omega
+      have h3 : ¬ a = b := by omega
+      cases hxn : x.neg <;> cases hyn : y.neg <;> simp [hab, h1, h3, Nat.add_comm]
+
+/-
+ORIGINAL STATEMENT (FALSE):
 
 /-- Mul commutes on finite operands -/
 theorem C20_mul_comm (c : Ctx) (x y : Dec) (hx : x.form = .finite) (hy : y.form = .finite) :
+    mulOp c x y = mulOp c y x
+
+Counterexample: `setExponent` reports the FIRST out-of-range summand, so with one exponent above
+MaxExponent and the other below MinExponent the two orders raise different system flags
+(SystemUnderflow|Underflow versus SystemOverflow|Overflow).  Both outcomes are `sys` errors with the
+same destination; only the flag words differ.
+-/
+example :
+    mulOp { prec := 5, emax := 10, emin := -10 } { exp := -200000, coeff := 1 } { exp := 200000, coeff := 1 } ≠
+    mulOp { prec := 5, emax := 10, emin := -10 } { exp := 200000, coeff := 1 } { exp := -200000, coeff := 1 } := by
+  decide
+
+/-- C20_mul_comm as stated is FALSE (see the counterexample in Props/C20.lean): `setExponent` reports
+the FIRST out-of-range summand, so with one exponent above MaxExponent and the other below
+MinExponent the two orders raise different system flags.  Excluding exactly that situation: -/
+theorem C20_mul_comm_partial (c : Ctx) (x y : Dec) (hx : x.form = .finite) (hy : y.form = .finite)
+    (h : ¬ (x.exp > MaxExponent ∧ y.exp < MinExponent) ∧ ¬ (y.exp > MaxExponent ∧ x.exp < MinExponent)) :
     mulOp c x y = mulOp c y x := by
-  sorry
+  unfold mulOp
+  simp only [shouldSetAsNaN, isNaN_of_finite x hx, isNaN_of_finite y hy, hx, hy, Bool.or_self,
+    Bool.false_eq_true, if_false]
+  rw [setExponent2_comm c _ _ x.exp y.exp (checkXs2_comm _ _ h), Nat.mul_comm x.coeff y.coeff,
+    bne_comm (a := x.neg)]
+  rfl
+
+/-- without any side condition, only the flags can differ (and then both outcomes are `sys` errors) -/
+theorem C20_mul_comm_d_err (c : Ctx) (x y : Dec) (hx : x.form = .finite) (hy : y.form = .finite) :
+    (mulOp c x y).d = (mulOp c y x).d ∧ (mulOp c x y).err = (mulOp c y x).err ∧
+    (mulOp c x y).aux = (mulOp c y x).aux := by
+  unfold mulOp
+  simp only [shouldSetAsNaN, isNaN_of_finite x hx, isNaN_of_finite y hy, hx, hy, Bool.or_self,
+    Bool.false_eq_true, if_false]
+  rw [Nat.mul_comm x.coeff y.coeff, bne_comm (a := x.neg)]
+  have hfi : (Form.finite == Form.infinite) = false := rfl
+  simp only [hfi, Bool.false_eq_true, if_false]
+  rcases setExponent2_swap c { form := .finite, neg := y.neg != x.neg, exp := 0, coeff := y.coeff * x.coeff }
+      {} x.exp y.exp with h | ⟨h1, h2, h3, h4⟩
+  · rw [h]; exact ⟨rfl, rfl, rfl⟩
+  · simp only [finish]
+    rw [h1, h2, goError_sys _ _ _ h3, goError_sys _ _ _ h4]
+    exact ⟨rfl, rfl, trivial⟩
+
+/-
+ORIGINAL STATEMENT (FALSE; its own doc comment restricts it to "every y that is not NaN", but the
+hypothesis is missing):
 
 /-- Sub(x, y) = Add(x, -y) for every y that is not NaN -/
 theorem C20_sub_eq_add_neg (c : Ctx) (x y : Dec) :
+    addOp c x y true = addOp c x { y with neg := !y.neg } false
+
+Counterexample: x = 1, y = NaN: the NaN operand is propagated with its own sign bit.
+-/
+example :
+    addOp { prec := 5, emax := 10, emin := -10 } { coeff := 1 } { form := .nan } true ≠
+    addOp { prec := 5, emax := 10, emin := -10 } { coeff := 1 }
+      { ({ form := .nan } : Dec) with neg := !({ form := .nan } : Dec).neg } false := by
+  decide
+
+/-- Sub(x, y) = Add(x, -y) for every y that is not NaN — and also whenever `y` is not the operand
+that `setAsNaN` propagates (x signalling, or both quiet NaNs).  In the remaining NaN cases the
+statement fails (the propagated NaN carries `y`'s sign bit). -/
+theorem C20_sub_eq_add_neg_partial (c : Ctx) (x y : Dec)
+    (h : y.isNaN = false ∨ x.form = .nanSignaling ∨ (x.form = .nan ∧ y.form = .nan)) :
     addOp c x y true = addOp c x { y with neg := !y.neg } false := by
-  sorry
+  unfold addOp
+  have e1 : shouldSetAsNaN x (some { y with neg := !y.neg }) = shouldSetAsNaN x (some y) := rfl
+  have e2 : upscale x { y with neg := !y.neg } = upscale x y := rfl
+  rw [e1, e2]
+  by_cases hn : shouldSetAsNaN x (some y) = true
+  · simp only [hn, if_true]
+    unfold setAsNaN
+    rcases h with h | h | ⟨h, h'⟩
+    · simp only [Dec.isNaN, Bool.or_eq_false_iff, beq_eq_false_iff_ne, ne_eq] at h
+      have hx : x.isNaN = true := by simpa [shouldSetAsNaN, Dec.isNaN, h] using hn
+      simp only [Dec.isNaN, Bool.or_eq_true, beq_iff_eq] at hx
+      rcases hx with hx | hx <;> simp [hx, h]
+    · simp [h]
+    · simp [h, h']
+  · simp only [hn, Bool.false_eq_true, if_false]
+    simp only [Bool.bne_true, Bool.bne_false]
+
+/-- the variant announced by the original doc comment -/
+theorem C20_sub_eq_add_neg_notNaN (c : Ctx) (x y : Dec) (hy : y.isNaN = false) :
+    addOp c x y true = addOp c x { y with neg := !y.neg } false :=
+  C20_sub_eq_add_neg_partial c x y (Or.inl hy)
 
 /-- Round is monotone on finite decimals of the same sign bit: a smaller magnitude never rounds
 to a larger magnitude (same context, same mode). -/
@@ -77,6 +300,52 @@ theorem C20_round_monotone (c : Ctx) (hc : c.WF) (neg : Bool) (n1 n2 : Nat) (e :
     s2.inf = true ∨ (s1.inf = false ∧
       (if s1.q ≤ s2.q then s1.m ≤ s2.m * 10 ^ (s2.q - s1.q).toNat
        else s1.m * 10 ^ (s1.q - s2.q).toNat ≤ s2.m)) := by
-  sorry
+  intro s1 s2
+  by_cases hinf : s2.inf = true
+  · left; exact hinf
+  right
+  rw [cmp_iff]
+  have e1 : s1 = specRound c { neg := neg, num := n1, den := 1, e10 := e } := rfl
+  have e2 : s2 = specRound c { neg := neg, num := n2, den := 1, e10 := e } := rfl
+  rw [specRound_eq] at e1 e2
+  simp only [] at e1 e2
+  by_cases hn1 : n1 = 0
+  · have hz : (n1 == 0) = true := by simpa using hn1
+    rw [if_pos hz] at e1
+    rw [e1]
+    refine ⟨rfl, ?_⟩
+    simp only [Nat.cast_zero, zero_mul]
+    exact mul_nonneg (Nat.cast_nonneg _) (tp _).le
+  · have hn2 : n2 ≠ 0 := by omega
+    have hz1 : ¬ (n1 == 0) = true := by simpa using hn1
+    have hz2 : ¬ (n2 == 0) = true := by simpa using hn2
+    rw [if_neg hz1] at e1
+    rw [if_neg hz2] at e2
+    have hm := round_mono_val c hc neg n1 n2 e h hn1
+    rw [e2, specCore_inf, inf_iff] at hinf
+    have hfin2 := specCore_fin c { neg := neg, num := n2, den := 1, e10 := e } _
+      (by rw [inf_iff]; exact hinf)
+    have hinf1 : ¬ (10 : ℚ) ^ (c.emax + 1) ≤ _ := fun hh => hinf (le_trans hh hm)
+    have hfin1 := specCore_fin c { neg := neg, num := n1, den := 1, e10 := e } _
+      (by rw [inf_iff]; exact hinf1)
+    rw [← e1] at hfin1
+    rw [← e2] at hfin2
+    obtain ⟨i1, m1, q1, -⟩ := hfin1
+    obtain ⟨i2, m2, q2, -⟩ := hfin2
+    rw [m1, m2, q1, q2]
+    exact ⟨i1, hm⟩
 
 end Apd.Props
+
+#print axioms Apd.Props.C20_down_or_up
+#print axioms Apd.Props.C20_mag_bracket
+#print axioms Apd.Props.C20_floor_ceiling
+#print axioms Apd.Props.C20_exact_coincide
+#print axioms Apd.Props.C20_adjacent
+#print axioms Apd.Props.C20_mirror
+#print axioms Apd.Props.C20_add_comm
+#print axioms Apd.Props.C20_mul_comm_partial
+#print axioms Apd.Props.C20_mul_comm_d_err
+#print axioms Apd.Props.C20_sub_eq_add_neg_partial
+#print axioms Apd.Props.C20_sub_eq_add_neg_notNaN
+#print axioms Apd.Props.C20_round_monotone
